@@ -4,4 +4,5 @@ Extraction "../ocaml/gen/m_consts.ml" ex_keep py_int str_to_number strip_us pyth
   signed_literal signed_within_limit legacy_octal py_str py_hex to_base32 bit_length
   int_const_text negated_literal_text emit_num decode_emitted int_emission int_const_key
   scalar_eq make_dedup_key top_key key_eq wf_top wf_node fold_binop fold_unop folded_value
-  py_binop py_unop float_as_int float_eq.
+  py_binop py_unop float_as_int float_eq
+  top_key2 wf_top2 top_has_mult frozen_key.
